@@ -680,6 +680,14 @@ func (g *c07gen) genOp(m resmap.ResMap) c07Opspec {
 	}
 	if len(g.pending) > 0 {
 		o := g.pending[0]
+		if o.Op == "ignorelocal" {
+			for _, t := range cur {
+				if t.IsNilOrEmpty() {
+					// IgnoreLocal is only reached after DropEmpties; the forced operation stays queued
+					return c07Opspec{Op: "dropempties"}
+				}
+			}
+		}
 		g.pending = g.pending[1:]
 		return o
 	}
